@@ -107,6 +107,12 @@ def _run_model(case, ctx):
         for x in ps:
             _call(other.spreading_pressure, x)
         ctx.count("interference", name)
+        if case["seed"] % 3 == 0:
+            # ... or the very same model object was (a parameter sweep / a second fit re-uses it), before it got the parameters checked here
+            for k_ in list(other.params):
+                other.params[k_] = m.params[k_]
+            m = other
+            ctx.count("interference", name + "/same-object-re-used-with-new-parameters")
     except Exception:
         pass
     uses_quad = name in GM.QUAD_SPREADING
